@@ -948,8 +948,50 @@ def _xdrop_edge(rng):
     return c
 
 
+def _multi_end(rng):
+    """gapped extension with SEVERAL co-optimal end cells per region and traces of different lengths: low-complexity
+    sequences / repeats (a = x*k, b = x*m, a few edits), match >> |gap| so that a shorter and a longer alignment tie
+    (cheap gaps), or +-1 matrices; max_number > 1 so that every start cell / branch is returned"""
+    k = rng.randint(2, 3)
+    if rng.random() < 0.5:
+        unit = [rng.randrange(k) for _ in range(rng.randint(1, 2))]
+        a = (unit * 6)[:rng.randint(3, 6)]
+        b = (unit * 8)[:rng.randint(4, 9)]
+        for seq_ in (a, b):
+            for _ in range(rng.randint(0, 2)):
+                seq_[rng.randrange(len(seq_))] = rng.randrange(k)
+    else:
+        a = [rng.randrange(2) for _ in range(rng.randint(3, 5))]
+        b = [rng.randrange(2) for _ in range(rng.randint(5, 9))]
+    if rng.random() < 0.5:
+        a, b = b, a
+    style = rng.random()
+    if style < 0.6:       # cheap gaps: one match pays for several gap columns
+        mt, mm = rng.choice([2, 3, 5]), rng.choice([-4, -3, -1])
+        gap = rng.choice([[-1], [-2], [-2], [-1, -1], [-2, -1], [-3, -1]])
+    else:                 # +-1
+        mt, mm = 1, rng.choice([-1, -1, 0])
+        gap = rng.choice([[-1], [-1], [-2], [-1, -1]])
+    M = [[mt if i == j else mm for j in range(k)] for i in range(k)]
+    d = rng.choice(["downstream", "upstream", "both", "both"])
+    n, m = len(a), len(b)
+    if d == "downstream":
+        seed = [rng.randint(0, min(1, n - 1)), rng.randint(0, min(1, m - 1))]
+    elif d == "upstream":
+        seed = [n - 1 - rng.randint(0, min(1, n - 1)), m - 1 - rng.randint(0, min(2, m - 1))]
+    else:
+        seed = [rng.randrange(n), rng.randrange(m)]
+    c = {"kind": "gapped", "a": a, "b": b, "M": M, "w1": rng.choice(["u8", "u8", "u16"]), "w2": "u8",
+         "max": rng.choice([2, 5, 20, 50]), "gap": gap,
+         "seed": seed, "thr": rng.choice([3, 8, HUGE, HUGE, HUGE]), "dir": d}
+    c["ops"] = _ops(c)
+    return c
+
+
 def cases(rng, tier):
     quick = tier == "quick"
+    for k in range(150 if quick else 1500):
+        yield _multi_end(rng)
     for k in range(120 if quick else 1200):
         yield _xdrop_edge(rng)
     for k in range(700 if quick else 8500):
